@@ -111,6 +111,20 @@ add("C17",
     "optimisation fitness values depend on random starting points, so reproducibility is for a fixed random_state only. Axiom-free.",
     "Rocq/Coq proof for clause (a) and the operator-table clause; subprocess differential test for the rest of (b)")
 
+add("C05",
+    "Coq theorems over a model of the generational pipeline (VarOr/VarAnd/AddRandomIndividuals flag handling, non-redundant "
+    "evaluation possibly through local optimisation, the five generational_step variants, EaDiagnostics.update and the selections "
+    "as READERS of stored fitness, Island steps / fitness resets / best-individual and hall-of-fame reads), generic in genome and "
+    "fitness types with variation and selection outcomes as arbitrary oracles: from any flag pattern no phase ever reads a missing or "
+    "stale fitness and every flagged individual carries the fitness of its current genome, for every history. Tied to the code by "
+    "replaying real generational steps of all five algorithms through the model (comparing the next generation's genome/stored "
+    "fitness/flag triples inside Coq), a class-level read monitor and an independent recomputation of every flagged fitness.",
+    "Trusted: Coq kernel; determinism of the fitness function; the harness's class-level instrumentation. The operators' own "
+    "behaviour (children get the flag cleared) enters the model as the shape of the oracle (ONew has flag false) and is tied by the "
+    "correspondence and by C04. AGraph/local-optimisation islands and serial archipelagos are monitored, not replayed through the "
+    "model. Parallel archipelago and predictor island are outside this model. Axiom-free.",
+    "Rocq/Coq proof (invariant over all histories and oracles) + phase-trace correspondence + read monitor")
+
 NOT_APPLICABLE = []
 def main():
     props = [json.loads(l)["id"] for l in open(os.path.join(HERE, "properties.jsonl"))]
